@@ -4,6 +4,10 @@ cases_*.v generation and evaluation, verdicts, known findings, evidence."""
 import fcntl, glob, hashlib, json, os, re, shutil, subprocess, sys, time
 from concurrent.futures import ThreadPoolExecutor
 
+# Every process linking 99designs/keyring (git-bug, the harness, go test) would otherwise auto-launch a
+# dbus session daemon at start-up and leave it behind: with the address set, godbus does not autolaunch.
+os.environ.setdefault("DBUS_SESSION_BUS_ADDRESS", "unix:path=/nonexistent")
+
 ROOT = os.path.dirname(os.path.abspath(__file__))
 WORK = os.path.join(ROOT, ".work")
 COQ = os.path.join(ROOT, "coq")
